@@ -157,6 +157,7 @@ Proof.
     destruct ((j_filter c =? 1) && negb (on_final_block cu)) eqn:Efin.
     { exfalso. apply Hninv. unfold stream_run. cbv zeta. fold (run_start c w). fold start. rewrite Hstart, Hmode, Hcur.
       rewrite andb_false_r. cbn [N.eqb]. rewrite Efin. reflexivity. }
+    rewrite !(pass_new_not_final c HpN).
     change (live_try (with_stop c 0) (w_hub w) start) with (live_try c (w_hub w) start).
     destruct (live_try c (w_hub w) start) as [burst| | |].
     - apply live_sim.
